@@ -24,6 +24,12 @@ class VGenCall(Value):
         self.contract, self.fn, self.args, self.kwargs = contract, fn, args, kwargs
 
 
+class VEmptySet(Value):
+    """set() not yet stored anywhere (materialised by the declared shape of the field / local it is assigned to)"""
+    def __init__(self):
+        self.shape = None
+
+
 class VFilteredList(Value):
     """[x for x in <heap list> if cond(x)], not yet consumed (cond: Value -> z3 Bool, evaluated in the state at creation)"""
     def __init__(self, lst, cond):
@@ -410,7 +416,7 @@ def next_of_range_gen(ex, gen, default):
 def b_set(ex, args, kw):
     """set(<generator `k for k in S if cond(k)` over a set/dict>): the subset"""
     if not args:
-        raise Unsupported('set() without a declared local shape')
+        return VEmptySet()
     gen = args[0]
     if type(gen).__name__ != 'VGen':
         raise Unsupported('set() of %r' % (gen,))
